@@ -205,7 +205,7 @@ class Ctx:
             "wall_s": round(wall, 3),
             "violations": len(unknown),
         }
-        if not self.replaying:
+        if not self.replaying and not os.environ.get("VERIF_NO_EVIDENCE"):
             write_evidence(ev)
         for e in self.harness_errors[:10]:
             print(f"HARNESS-ERROR property={self.prop} {e}", file=sys.stderr)
